@@ -33,3 +33,14 @@ def matches(f, case, clause):
     if fn is None:
         return False
     return bool(fn(case, clause))
+
+
+@predicate("expand_slice_subrange")
+def _expand_slice_subrange(case, clause):
+    """dtw_expand_wps_slice called for a proper sub-range of the matrix (anything but [0:l1+1, 0:l2+1])."""
+    m = re.search(r"expand_slice\[(\d+):(\d+),(\d+):(\d+)\]", clause)
+    if not m:
+        return False
+    rb, re_, cb, ce = map(int, m.groups())
+    l1, l2 = len(case["s1"]), len(case["s2"])
+    return not (rb == 0 and cb == 0 and re_ == l1 + 1 and ce == l2 + 1)
